@@ -11,6 +11,7 @@ import (
 	"fmt"
 	"net"
 	"os"
+	"sort"
 	"strings"
 	"time"
 
@@ -685,11 +686,12 @@ func runTables(r *ev.Run, only int) {
 		name    string
 		proxies []string
 		opCmd   [2]string
+		full    bool // operator also lists the proxies, the agent also returns data
 	}
 	scens := []scen{
-		{"1 proxy: agent connect/read/close | operator socks list + socks kill", []string{"1080"}, [2]string{"socks kill", "1080"}},
-		{"2 proxies: agent connect/close | operator socks clear", []string{"1080", "1081"}, [2]string{"socks clear", ""}},
-		{"1 proxy: agent connect/close | operator socks add (second proxy) + socks clear", []string{"1080"}, [2]string{"socks add", "1081"}},
+		{"1 proxy: agent connect/read/close | operator socks list + socks kill", []string{"1080"}, [2]string{"socks kill", "1080"}, true},
+		{"2 proxies: agent connect/close | operator socks clear", []string{"1080", "1081"}, [2]string{"socks clear", ""}, false},
+		{"1 proxy: agent connect/close | operator socks add (second proxy) + socks clear", []string{"1080"}, [2]string{"socks add", "1081"}, false},
 	}
 	var exec, points int64
 	for si, sc := range scens {
@@ -732,22 +734,28 @@ func runTables(r *ev.Run, only int) {
 				ready = true
 				// the agent: connect ok, some data, close
 				se.tasks(cbConnect(sid, true, 0))
-				se.tasks(cbRead(sid, []byte("data")))
+				if sc.full || r.Thorough() {
+					se.tasks(cbRead(sid, []byte("data")))
+				}
 				se.tasks(cbClose(sid))
 			})
 			se.s.Spawn("operator", func() {
 				se.s.Block("operator waits for the setup", func() bool { return ready })
-				se.socksCmd("socks list", "")
+				if sc.full || r.Thorough() {
+					se.socksCmd("socks list", "")
+				}
 				se.socksCmd(sc.opCmd[0], sc.opCmd[1])
 				if sc.opCmd[0] == "socks add" {
 					se.socksCmd("socks clear", "")
 				}
 			})
-			se.s.Spawn("client", func() {
-				se.s.Block("client waits for the setup", func() bool { return ready })
-				conn.Feed([]byte("hello"))
-				conn.ClosePeer()
-			})
+			if sc.full || r.Thorough() {
+				se.s.Spawn("client", func() {
+					se.s.Block("client waits for the setup", func() bool { return ready })
+					conn.Feed([]byte("hello"))
+					conn.ClosePeer()
+				})
+			}
 			se.s.Run()
 			benign := se.s.Deadlock && se.s.BlockedOnly("accept ", "read ")
 			if benign || (!se.s.Deadlock && !se.s.HorizonHit && len(se.s.Panics) == 0) {
@@ -773,6 +781,8 @@ func runTables(r *ev.Run, only int) {
 				r.Violate("tables/lock-held", fmt.Sprint(se.s.Held()), detail)
 			case !mutexesFree(se.a):
 				r.Violate("tables/lock-held", "an agent table mutex is still locked after the run", detail)
+			case openListeners(se) != "":
+				r.Violate("tables/listener-outlives-proxy", "every proxy was cleared, but the listener on "+openListeners(se)+" is still open (accepting connections for a proxy that is in no table)", detail)
 			case len(se.a.SocksSvr) != 0 || len(se.a.SocksCli) != 0:
 				r.Violate("tables/leftover", fmt.Sprintf("after every proxy was cleared and every socket closed the tables hold %s", obs), detail)
 			}
@@ -795,6 +805,23 @@ func runTables(r *ev.Run, only int) {
 	}
 	r.Eval(int(exec))
 	r.AddStates(points, points, exec)
+}
+
+// openListeners names the scripted listeners that are still open although their proxy
+// is in no table any more.
+func openListeners(se *sess) string {
+	inTable := map[string]bool{}
+	for _, s := range se.a.SocksSvr {
+		inTable["0.0.0.0:"+s.Addr] = true
+	}
+	var open []string
+	for addr, l := range se.lsts {
+		if !inTable[addr] && !l.Closed() {
+			open = append(open, addr)
+		}
+	}
+	sort.Strings(open)
+	return strings.Join(open, ",")
 }
 
 func mutexesFree(a *agent.Agent) bool {
